@@ -27,13 +27,15 @@ func (slf *SyncSlice[V]) Get(index int) V {
 }
 
 func (slf *SyncSlice[V]) GetWithRange(start, end int) []V {
+	slf.rw.RLock()
+	defer slf.rw.RUnlock()
 	return slf.data[start:end]
 }
 
 func (slf *SyncSlice[V]) Set(index int, value V) {
 	slf.rw.Lock()
+	defer slf.rw.Unlock()
 	slf.data[index] = value
-	slf.rw.Unlock()
 }
 
 func (slf *SyncSlice[V]) Append(values ...V) {
